@@ -21,6 +21,7 @@ pub mod zones;
 mod c01;
 mod c03;
 mod c04;
+mod c14;
 
 fn main() {
     let args: Vec<String> = std::env::args().skip(1).collect();
@@ -45,24 +46,28 @@ fn main() {
                 2
             }
         },
-        "c01" => {
-            c01::run(&mut cx);
-            cx.finish()
-        }
-        "c03" => {
-            c03::run(&mut cx);
-            cx.finish()
-        }
-        "c04" => {
-            c04::run(&mut cx);
-            cx.finish()
-        }
-        other => {
-            eprintln!("unknown subcommand {}", other);
-            2
-        }
+        name => match prop_fn(name) {
+            Some(f) => {
+                f(&mut cx);
+                cx.finish()
+            }
+            None => {
+                eprintln!("unknown subcommand {}", name);
+                2
+            }
+        },
     };
     std::process::exit(code);
+}
+
+fn prop_fn(name: &str) -> Option<fn(&mut rep::Ctx)> {
+    Some(match name {
+        "c01" => c01::run,
+        "c03" => c03::run,
+        "c04" => c04::run,
+        "c14" => c14::run,
+        _ => return None,
+    })
 }
 
 /// Count the union of sorted u64 hash files (distinct non-trivial cases
